@@ -654,7 +654,7 @@ func finePubWhileTopicDeleting(seed uint64) []lib.Case {
 // delivered again; a TOUCH 1.2 s after that runs into the cap.  A scan whose clock lies
 // between (first delivery + 6 s) and (second delivery + 6 s) must leave the message held.
 func fineTouchCapAfterRedelivery(seed uint64) []lib.Case {
-	cr := newFineCaseWith(seed, 10, func(o *nsqd.Options) { o.MaxMsgTimeout = 6 * time.Second })
+	cr := newFineCaseWith(seed, 10, func(o *nsqd.Options) { o.MaxMsgTimeout = 6 * time.Second; o.MsgTimeout = 4 * time.Second })
 	cr.opCreateTopic(1)
 	cr.opCreateChan(1, 1)
 	k1 := cr.opConnectTmo(shortTimeoutMs, false)
@@ -674,38 +674,73 @@ func fineTouchCapAfterRedelivery(seed uint64) []lib.Case {
 	second := time.Now()
 	time.Sleep(1200 * time.Millisecond)
 	cr.answer(k1, "TOUCH", tg2, id2, 0)
-	// clock 4.2 s after the second delivery: past (first delivery + 6 s), before (second + 6 s)
+	// a TOUCH of a message that is already at the cap changes nothing (and must not lose it)
+	cr.answer(k1, "TOUCH", tg2, id2, 0)
+	// clock 4.2 s after the second delivery: past (first delivery + 6 s) and past (second
+	// delivery + the daemon's default msg-timeout 4 s), before (second delivery + 6 s)
 	cr.scanAt(1, 1, true, second.Add(4200*time.Millisecond).UnixNano())
 	cr.opScan(1, 1, true, scanAll)
 	return []lib.Case{cr.finish("touch-cap#"+strconv.FormatUint(seed, 10), seed, nil, nil)}
 }
 
+// The last two channels of an ephemeral topic are deleted at overlapping times: the first
+// deletion is parked just before it removes its channel from the topic's map, the second
+// runs to completion, then the first continues.  The topic must go with its last channel
+// (each deletion has to count the channels AFTER its own removal).
+func fineTwoDeletesOnEphemeralTopic(seed uint64) []lib.Case {
+	cr := newFineCase(seed, 10)
+	cr.opCreateTopic(3)
+	cr.opCreateChan(3, 1)
+	cr.opCreateChan(3, 2)
+	reached, release := nsqd.VerifArmPark("delete-channel:before-remove", 1)
+	first := make(chan int, 1)
+	go func() {
+		first <- cr.post("/channel/delete", url.Values{"topic": {tname(3)}, "channel": {cname(1)}}, nil)
+	}()
+	ok := waitReached(reached, 3*time.Second)
+	cr.tag(fmt.Sprintf("channel-delete-parked=%v", ok))
+	code2 := cr.post("/channel/delete", url.Values{"topic": {tname(3)}, "channel": {cname(2)}}, nil)
+	release()
+	code1 := <-first
+	cr.ev(fmt.Sprintf("EOp (ODeleteChan 3 2) %s", httpResp(code2)))
+	cr.ev(fmt.Sprintf("EOp (ODeleteChan 3 1) %s", httpResp(code1)))
+	delete(cr.chans, [2]int{3, 1})
+	delete(cr.chans, [2]int{3, 2})
+	delete(cr.topics, 3)
+	cr.hadChan[3] = true
+	cr.tag("delete-channel")
+	cr.nontriv = true
+	cr.after()
+	return []lib.Case{cr.finish("two-deletes-on-ephemeral-topic#"+strconv.FormatUint(seed, 10), seed, nil, nil)}
+}
+
 var fineScenarios = map[string]func(uint64) []lib.Case{
-	"touch-cap":             fineTouchCapAfterRedelivery,
-	"pub-vs-topic-delete":   finePubWhileTopicDeleting,
-	"scan-vs-empty":         func(seed uint64) []lib.Case { return fineEmptyVsRequeue(seed, false) },
-	"req-vs-empty":          func(seed uint64) []lib.Case { return fineEmptyVsRequeue(seed, true) },
-	"empty-vs-wakeup":       fineEmptyWakesConsumer,
-	"pause-vs-pump":         finePauseWhilePumpBusy,
-	"touch-then-scan":       fineTouchThenScan,
-	"deliver-vs-disconnect": fineDisconnectWhileDelivering,
-	"exit-vs-timeout-scan":  func(seed uint64) []lib.Case { return fineExitWhileScanning(seed, true) },
-	"exit-vs-deferred-scan": func(seed uint64) []lib.Case { return fineExitWhileScanning(seed, false) },
-	"exit-vs-deliver":       fineExitWhileDelivering,
-	"exit-vs-req":           fineExitWhileRequeueing,
-	"pump-vs-sub":           fineSubWhilePumpBusy,
-	"deliver-vs-empty":      fineEmptyWhileDelivering,
-	"fin-vs-empty":          fineEmptyWhileFinishing,
-	"sub-vs-topic-delete":   fineSubWhileTopicDeleting,
+	"two-deletes-on-ephemeral-topic": fineTwoDeletesOnEphemeralTopic,
+	"touch-cap":                      fineTouchCapAfterRedelivery,
+	"pub-vs-topic-delete":            finePubWhileTopicDeleting,
+	"scan-vs-empty":                  func(seed uint64) []lib.Case { return fineEmptyVsRequeue(seed, false) },
+	"req-vs-empty":                   func(seed uint64) []lib.Case { return fineEmptyVsRequeue(seed, true) },
+	"empty-vs-wakeup":                fineEmptyWakesConsumer,
+	"pause-vs-pump":                  finePauseWhilePumpBusy,
+	"touch-then-scan":                fineTouchThenScan,
+	"deliver-vs-disconnect":          fineDisconnectWhileDelivering,
+	"exit-vs-timeout-scan":           func(seed uint64) []lib.Case { return fineExitWhileScanning(seed, true) },
+	"exit-vs-deferred-scan":          func(seed uint64) []lib.Case { return fineExitWhileScanning(seed, false) },
+	"exit-vs-deliver":                fineExitWhileDelivering,
+	"exit-vs-req":                    fineExitWhileRequeueing,
+	"pump-vs-sub":                    fineSubWhilePumpBusy,
+	"deliver-vs-empty":               fineEmptyWhileDelivering,
+	"fin-vs-empty":                   fineEmptyWhileFinishing,
+	"sub-vs-topic-delete":            fineSubWhileTopicDeleting,
 }
 
 // which forced interleavings each property's profile runs
 var fineByProfile = map[string][]string{
-	"c01": {"pump-vs-sub", "deliver-vs-disconnect"},
-	"c08": {"deliver-vs-empty", "sub-vs-topic-delete", "fin-vs-empty", "empty-vs-wakeup", "scan-vs-empty", "req-vs-empty", "pub-vs-topic-delete"},
+	"c01": {"pump-vs-sub", "deliver-vs-disconnect", "touch-cap"},
+	"c08": {"deliver-vs-empty", "sub-vs-topic-delete", "fin-vs-empty", "empty-vs-wakeup", "scan-vs-empty", "req-vs-empty", "pub-vs-topic-delete", "two-deletes-on-ephemeral-topic"},
 	"c03": {"fin-vs-empty", "deliver-vs-empty", "pause-vs-pump"},
-	"c13": {"fin-vs-empty", "deliver-vs-empty"},
+	"c13": {"fin-vs-empty", "deliver-vs-empty", "touch-cap"},
 	"c02": {"deliver-vs-disconnect", "touch-then-scan", "touch-cap"},
 	"c04": {"touch-then-scan", "touch-cap"},
-	"c05": {"exit-vs-deliver", "exit-vs-req", "exit-vs-timeout-scan", "exit-vs-deferred-scan"},
+	"c05": {"exit-vs-deliver", "exit-vs-req", "exit-vs-timeout-scan", "exit-vs-deferred-scan", "deliver-vs-disconnect"},
 }
